@@ -325,6 +325,15 @@ def run(ctx):
                "reset must store INITIAL over the whole 32-bit word (status and waiter bits)")
     n6 = L.check_special_members(ctx, "C15.R6", fb, r"^babylon::ConcurrentTransientTopic<[^:]*(::[^:<>]+)*<?[^:]*>$")
 
+    # ---------------------------------------------------------------- R7 flag forwarding (after seed C15-5)
+    # the entry points without a CONCURRENT argument are the ones several publishers may call at once (the range is
+    # reserved by fetch_add only when CONCURRENT is true): they forward `true`; an entry point that has the flag hands the
+    # same value down
+    n7 = L.flag_forwarding(ctx, "C15.R7", fb, TOPIC.pattern, ("publish", "publish_n"), ("CONCURRENT",),
+                           "with CONCURRENT=false the slot range is reserved by a separate load and store and two publishers "
+                           "get the same slots", same_name=False)
+    ctx.floor("C15.R7", n7, 4, "publish / publish_n forwarding calls")
+
 
 SWEEP = ["concurrent/test_transient_topic.cpp"]
 
